@@ -1486,6 +1486,14 @@ class Canonicaliser:
                                         slice=ast.Constant(value=0), ctx=ast.Load())
                     me.log.append(('idiom', unit.loc(n), '%s: next(iter(..))' % unit.qual))
                     return ast.fix_missing_locations(ast.copy_location(new, n))
+                if nm == 'itemgetter' and len(n.args) >= 2 and not n.keywords and \
+                        all(isinstance(a, ast.Constant) for a in n.args):
+                    body = ast.Tuple(elts=[ast.Subscript(value=ast.Name(id='x', ctx=ast.Load()), slice=a, ctx=ast.Load())
+                                           for a in n.args], ctx=ast.Load())
+                    new = ast.Lambda(args=ast.arguments(posonlyargs=[], args=[ast.arg(arg='x')], kwonlyargs=[],
+                                                        kw_defaults=[], defaults=[]), body=body)
+                    me.log.append(('idiom', unit.loc(n), '%s: itemgetter' % unit.qual))
+                    return ast.fix_missing_locations(ast.copy_location(new, n))
                 if nm in ('itemgetter', 'attrgetter') and len(n.args) == 1 and not n.keywords and \
                         isinstance(n.args[0], ast.Constant):
                     k = n.args[0]
